@@ -171,6 +171,18 @@ def rule_CL1(ctx, prog, label, rule='CL1'):
         problems.append((zl, 'the clearing pass starts at column %r, the moved block ends at %s + %s: the columns in between keep (or lose) the wrong bits' % (st, r1, r2)))
     if not (endv == Lin.atom(n1) + Lin.atom(r2)):
         problems.append((zl, 'the clearing pass ends at column %r, the old place of the block ends at %s + %s' % (endv, n1, r2)))
+    # the column swaps that bring the pivot columns of the second block next to the first: the swap of columns (i, j) covers the
+    # rows from i on - row i holds the pivot one of that column, which belongs on the diagonal - up to r1 + r2
+    swaps = [c for c in f.body.find('CallExpr') if callee_name(c) == 'mzd_col_swap_in_rows' and len(c.kids) >= 6]
+    if not swaps:
+        raise AnalysisBroken('CL1: the column swaps of _mzd_compress_l vanished')
+    for c in swaps:
+        cola, start_row, stop_row = fs.sym(c.kids[2]), fs.sym(c.kids[4]), fs.sym(c.kids[5])
+        if not (start_row == cola):
+            problems.append((c, 'the swap of columns (%s, %s) starts at row %r, not at row %r: the pivot entry of that column (row %r) stays behind, so L keeps a '
+                                'one off the diagonal and a zero on it' % (pp(strip(c.kids[2], casts=True)), pp(strip(c.kids[3], casts=True)), start_row, cola, cola)))
+        if not (stop_row == Lin.atom(r1) + Lin.atom(r2)):
+            problems.append((c, 'the column swaps stop at row %r, the pivot rows end at %s + %s' % (stop_row, r1, r2)))
     rr.instances += 1
     if nmoves < 3:
         raise AnalysisBroken('CL1: only %d move steps recognised in _mzd_compress_l (4 confirmed by reading)' % nmoves)
